@@ -1276,6 +1276,9 @@ struct ical_parser_s {
 	size_t bix;
 
 	size_t six;
+	/* whether the stash ends where a newline was, which the bytes to
+	 * come may turn into a line fold */
+	bool eolp;
 	char stash[1024U];
 };
 
@@ -1602,9 +1605,9 @@ _ical_pull(struct ical_parser_s p[static 1U])
 	 * we might have put a multiline there and only now it
 	 * becomes apparent that it's indeed a valid line when
 	 * examinging the new bytes in the parser buffer */
-	if (p->six && p->stash[p->six] == '\001') {
-		/* go back to 0 termination */
-		p->stash[p->six] = '\0';
+	if (p->eolp) {
+		/* an empty line may be continued too */
+		p->eolp = false;
 		/* now check if the stuff in the buffer happens
 		 * to start with a single allowed whitespace in
 		 * which case we enter the normal chop_more
@@ -1635,11 +1638,10 @@ chop_more:
 		p->six += esccpy(sp, sz, BP, BZ);
 		if (eol != NULL) {
 			/* means at least we've seen a \n up there
-			 * leave a mark in the stash buffer so the
-			 * pre-examination in the next iteration can
-			 * rule whether this was a multi-line or in
-			 * fact a complete line */
-			p->stash[p->six] = '\001';
+			 * leave a mark so the pre-examination in the
+			 * next iteration can rule whether this was a
+			 * multi-line or in fact a complete line */
+			p->eolp = true;
 		}
 	} else {
 		const char *bp = BP;
